@@ -102,4 +102,134 @@ def d12Set : SetB := { header := [1, 45, 0, 0], ty := .data, recs := [d12Rec], l
 theorem d12_witness :
     C08.isOk (d12State.sendBuilt 0 d12Set).2 = true ∧ d12State.template 301 = none := by decide
 
+/-! ## History form: where the exporter's template table comes from -/
+
+theorem register_mem (st : ExpState) (id : Nat) (t : TplInfo) (x : Nat × TplInfo)
+    (hx : x ∈ (st.register id t).templates) : x ∈ st.templates ∨ x = (id, t) := by
+  unfold ExpState.register at hx
+  split at hx
+  · exact .inl hx
+  · simp at hx
+    exact hx
+
+theorem foldl_register_mem (l : List Rec) (st : ExpState) (x : Nat × TplInfo)
+    (hx : x ∈ (l.foldl (fun acc r => acc.register r.tid
+      { fieldCount := r.elems.length, minLen := minDataRecLen (r.elems.map (·.1)) }) st).templates) :
+    x ∈ st.templates ∨ ∃ r' ∈ l, r'.tid = x.1 ∧ x.2.fieldCount = r'.elems.length := by
+  induction l generalizing st with
+  | nil => exact .inl hx
+  | cons r t ih =>
+    simp only [List.foldl_cons] at hx
+    rcases ih _ hx with h | ⟨r', hr', h1, h2⟩
+    · rcases register_mem _ _ _ _ h with h | h
+      · exact .inl h
+      · exact .inr ⟨r, by simp, by rw [h], by rw [h]⟩
+    · exact .inr ⟨r', by simp [hr'], h1, h2⟩
+
+/-- one SendSet: an entry of the table afterwards was there before, or the call was a successful
+    send of a template set one of whose records defines it -/
+theorem step_templates (st st' : ExpState) (time : Nat) (s : SetB) (r : SendResult)
+    (h : st.sendBuilt time s = (st', r)) (x : Nat × TplInfo) (hx : x ∈ st'.templates) :
+    x ∈ st.templates ∨ (s.ty = .template ∧ C08.isOk r = true ∧
+      ∃ r' ∈ s.recs, r'.tid = x.1 ∧ x.2.fieldCount = r'.elems.length) := by
+  unfold ExpState.sendBuilt at h
+  split at h
+  · simp at h; obtain ⟨rfl, _⟩ := h; exact .inl hx
+  · split at h
+    · simp at h; obtain ⟨rfl, _⟩ := h; exact .inl hx
+    · simp only at h
+      split at h
+      · simp at h; obtain ⟨rfl, _⟩ := h; exact .inl hx
+      · simp at h
+        obtain ⟨hst, hr⟩ := h
+        subst hr
+        by_cases ht : s.ty = .template
+        · simp only [ht, if_true] at hst
+          subst hst
+          rcases foldl_register_mem _ _ _ hx with h | h
+          · exact .inl h
+          · exact .inr ⟨ht, rfl, h⟩
+        · simp [ht] at hst; subst hst; exact .inl hx
+
+/-- a whole session: an entry of the table afterwards was there at the start, or some send of the
+    session - a successful send of a template set - put it there -/
+theorem session_templates (time : Nat) (pre : List SetB) (st0 : ExpState) (x : Nat × TplInfo)
+    (hx : x ∈ (C08.sendAll time st0 pre).1.templates) :
+    x ∈ st0.templates ∨ ∃ pre1 t pre2, pre = pre1 ++ t :: pre2 ∧ t.ty = .template ∧
+      C08.isOk ((C08.sendAll time st0 pre1).1.sendBuilt time t).2 = true ∧
+      ∃ r' ∈ t.recs, r'.tid = x.1 ∧ x.2.fieldCount = r'.elems.length := by
+  induction pre generalizing st0 with
+  | nil => exact .inl hx
+  | cons s rest ih =>
+    simp only [C08.sendAll] at hx
+    rcases ih _ hx with h | ⟨pre1, t, pre2, hp, ht, hok, hr⟩
+    · rcases step_templates st0 _ time s _ rfl x h with h | ⟨ht, hok, hr⟩
+      · exact .inl h
+      · exact .inr ⟨[], s, rest, rfl, ht, hok, hr⟩
+    · exact .inr ⟨s :: pre1, t, pre2, by rw [hp]; rfl, ht, hok, hr⟩
+
+/-- provenance of the exporter's template table over a whole session that starts with an empty table:
+    SendSet transmits a data set only if, for every record of it, a template set containing a
+    template record with that id and exactly that many fields was previously SENT (successfully)
+    in the same session on the same exporting process -/
+theorem data_only_after_template_sent (time : Nat) (st0 : ExpState) (h0 : st0.templates = [])
+    (pre : List SetB) (s : SetB) (st' : ExpState) (n : Nat) (w : Bytes) (hd : s.ty = .data)
+    (h : (C08.sendAll time st0 pre).1.sendBuilt time s = (st', .ok n w)) :
+    ∀ r ∈ s.recs, ∃ pre1 t pre2, pre = pre1 ++ t :: pre2 ∧ t.ty = .template ∧
+      C08.isOk ((C08.sendAll time st0 pre1).1.sendBuilt time t).2 = true ∧
+      ∃ r' ∈ t.recs, r'.tid = r.tid ∧ r'.elems.length = r.fieldCount := by
+  intro r hr
+  obtain ⟨ti, hti, hfc, _⟩ := data_requires_registered_template _ st' time s n w hd h r hr
+  unfold ExpState.template at hti
+  cases hf : (C08.sendAll time st0 pre).1.templates.find? (·.1 == r.tid) with
+  | none => simp [hf] at hti
+  | some x =>
+    simp [hf] at hti
+    have hmem := List.mem_of_find?_eq_some hf
+    have hkey := List.find?_some hf
+    simp at hkey
+    rcases session_templates time pre st0 x hmem with h | ⟨pre1, t, pre2, hp, ht, hok, r', hr', h1, h2⟩
+    · rw [h0] at h; simp at h
+    · exact ⟨pre1, t, pre2, hp, ht, hok, r', hr', by rw [h1, hkey], by rw [← h2, hti, hfc]⟩
+
+/-- a refused send does not disturb what follows: the next send from the state it leaves behaves,
+    byte for byte, like the same send from a state with the same counter that never saw the refusal -/
+theorem refusal_is_transparent (st st' : ExpState) (time : Nat) (s : SetB)
+    (h : st.sendBuilt time s = (st', .err)) (time2 : Nat) (s2 : SetB) :
+    st'.sendBuilt time2 s2 = ({ st with seq := st'.seq }).sendBuilt time2 s2 := by
+  have he : st' = { st with seq := st'.seq } := by
+    unfold ExpState.sendBuilt at h
+    split at h
+    · simp at h; subst h; rfl
+    · split at h
+      · simp at h; subst h; rfl
+      · simp only at h
+        split at h
+        · simp at h; subst h; rfl
+        · simp at h
+  rw [← he]
+
+
+/-- "... and later sends still produce well-formed messages": WHATEVER the exporter went through
+    before (any mix of successful and refused sends - the statement is about an arbitrary state
+    `st`), a send that succeeds writes one message that the independent parser reads as version 10,
+    header length = bytes written ≤ 65535, the time handed in, the new counter, the configured
+    domain, and exactly one set with the prepared id whose length covers the rest of the message -/
+theorem every_sent_message_parses (st st' : ExpState) (time : Nat) (s : SetB) (n : Nat) (w : Bytes) (sid : Nat)
+    (hi : C16.Inv s) (hhdr : s.header.take 2 = be 2 sid) (hsid : sid < 65536)
+    (hd : st.dom < 4294967296) (hs : st.seq < 4294967296) (ht : time < 4294967296)
+    (h : st.sendBuilt time s = (st', .ok n w)) :
+    ∃ m, ExpSpec.parseMessage w = some m ∧ m.version = 10 ∧ m.length = w.length ∧ w.length ≤ 65535 ∧ n = w.length ∧
+      m.time = time ∧ m.seq = st'.seq ∧ m.dom = st.dom ∧ m.setId = sid ∧ m.setLen = w.length - 16 ∧
+      m.body = (s.recs.map (·.bytes)).flatten := by
+  obtain ⟨hn, _, hseq, hc⟩ := C08.send_ok st st' time s n w h
+  have hi' : C16.Inv s.updateLen := C16.inv_step s .updateLen hi
+  have hs' : st'.seq < 4294967296 := by
+    rw [hseq]; split
+    · exact Nat.mod_lt _ (by decide)
+    · exact hs
+  have hh : s.updateLen.header = be 2 sid ++ be 2 s.updateLen.length := by simp [SetB.updateLen, hhdr]
+  obtain ⟨m, h1, h2, h3, h4, h5, h6, h7, h8, h9⟩ := C02.wire_header s.updateLen st.dom st'.seq time sid w hc hi' hh hsid hd hs' ht
+  exact ⟨m, h1, h2, h3, size_bound st st' time s hi n w h, hn, h4, h5, h6, h7, h8, by simpa [SetB.updateLen] using h9⟩
+
 end Ipfix.C09
